@@ -199,9 +199,43 @@ def damage_case(seed, idx, tier, rec):
         Bomb.mode = None
         for name in names:
             os.makedirs(os.path.join(root, name), exist_ok=True)
-        write_env(env, filename=FNAME, fmt='pickle')
+        # write-side fault: the output directory of one task cannot be
+        # written to (dangling link, regular file in its place); the other
+        # tasks must be persisted all the same
+        blocked = None
+        plain = [n for n in names if n and '/' not in n
+                 and 'output_dir' in env[n]]
+        if plain and rng.random() < 0.15:
+            blocked = rng.choice(plain)
+            os.rmdir(os.path.join(root, blocked))
+            if rng.random() < 0.5:
+                os.symlink(os.path.join(root, 'nowhere', 'at', 'all'),
+                           os.path.join(root, blocked))
+            else:
+                with open(os.path.join(root, blocked), 'wb') as fil:
+                    fil.write(b'not a directory')
+            rec.count('environments_with_an_unwritable_output_directory')
+        try:
+            write_env(env, filename=FNAME, fmt='pickle')
+        except Exception as err:  # pylint: disable=broad-except
+            rec.violation(f'write-raised-{type(err).__name__}-for-an-'
+                          'unwritable-output-directory', f'write_env raised '
+                          f'{err!r}; tasks {names}, unwritable {blocked!r}',
+                          where)
         rec.count('environments')
         expect = expected_of(env, names)
+        if blocked is not None:
+            expect.pop(blocked, None)
+            got = safe_read(root, names, rec, where, 'unwritable-directory')
+            if got is not None:
+                compare(got, expect, names, rec, where,
+                        'unwritable-directory-of-another-task')
+            if os.path.islink(os.path.join(root, blocked)):
+                os.unlink(os.path.join(root, blocked))
+            else:
+                os.unlink(os.path.join(root, blocked))
+            os.makedirs(os.path.join(root, blocked))
+            names = [n for n in names if n != blocked]
         got = safe_read(root, names, rec, where, 'intact')
         if got is not None:
             compare(got, expect, names, rec, where, 'intact')
